@@ -72,6 +72,17 @@ type World struct {
 	Det            bool // deterministic fair rounds (no draws)
 	detRound       int
 	OnViolation    func(vs []mon.V) // if set, violations are handed over instead of failing the rapid case
+	// provenance of the user's canary pause annotations (C02): idleSeq counts, per EDS, the successful EDS reconciles
+	// that started and ended with no canary in progress (each of them removes the canary annotations); annSetAt is the
+	// value of that counter when the user last wrote the annotation
+	idleSeq  map[string]int
+	annSetAt map[string]int
+}
+
+// noCanaryInProgress: a canary strategy is configured, status.canary is unset and the active replica set is the one
+// of spec.template.
+func noCanaryInProgress(e *edsv1.ExtendedDaemonSet, rs *edsv1.ExtendedDaemonSetReplicaSet) bool {
+	return e != nil && rs != nil && e.Spec.Strategy.Canary != nil && e.Status.Canary == nil && rs.DeletionTimestamp == nil && oracle.RSMatchesTemplate(rs, &e.Spec.Template)
 }
 
 func newWorld(rt *rapid.T, rec *evid.Rec, cfg WorldCfg) *World {
@@ -305,6 +316,21 @@ func (w *World) reconcile(actor, ns, name string) *sim.Record {
 			}
 		}
 	}
+	if actor == sim.ActorEDS && r.Err == nil && r.Pre != nil && r.Post != nil {
+		clean := true
+		for _, c := range r.Calls {
+			if c.Fault != sim.FaultNone || c.Err != "" {
+				clean = false
+			}
+		}
+		pre, post := r.Pre.EDSByKey(ns, name), r.Post.EDSByKey(ns, name)
+		if clean && pre != nil && post != nil && noCanaryInProgress(pre, r.Pre.RSByKey(ns, pre.Status.ActiveReplicaSet)) && noCanaryInProgress(post, r.Post.RSByKey(ns, post.Status.ActiveReplicaSet)) {
+			if w.idleSeq == nil {
+				w.idleSeq = map[string]int{}
+			}
+			w.idleSeq[ns+"/"+name]++
+		}
+	}
 	w.check(r, w.H)
 	if w.RetryFaulted && !w.retrying {
 		// a reconcile that met a failing call is retried at once by the work queue (well inside reconcileFrequency)
@@ -509,11 +535,37 @@ func (w *World) do(kind string) {
 		e := w.pickEDS()
 		l := w.cfg.Letters[rapid.IntRange(0, len(w.cfg.Letters)-1).Draw(w.rt, "letter")]
 		w.editTemplate(e, l)
+	case "edit-strategy":
+		// the user changes the numbers of the strategy in place (no template change): the canary size or the
+		// rolling-update budget; selected canary nodes, counters and conditions survive the edit
+		e := w.pickEDS()
+		cur := w.C.EDS(e.Namespace, e.Name)
+		if cur == nil {
+			return
+		}
+		if cur.Spec.Strategy.Canary != nil && rapid.IntRange(0, 3).Draw(w.rt, "editWhat") > 0 {
+			pool := []string{"1", "2", "3", "30%", "50%"}
+			if w.cfg.Strategy.NoPercentRepl {
+				pool = []string{"1", "2", "3"}
+			}
+			v := gen.IntOrPercent(w.rt, "newCanaryReplicas", pool)
+			w.C.Tracef("eds %s/%s canary.replicas := %s", e.Namespace, e.Name, v.String())
+			_ = w.C.EditEDS(e.Namespace, e.Name, func(x *edsv1.ExtendedDaemonSet) { x.Spec.Strategy.Canary.Replicas = v })
+		} else {
+			v := gen.IntOrPercent(w.rt, "newMaxUnavailable", []string{"1", "2", "3", "30%", "50%", "100%"})
+			w.C.Tracef("eds %s/%s maxUnavailable := %s", e.Namespace, e.Name, v.String())
+			_ = w.C.EditEDS(e.Namespace, e.Name, func(x *edsv1.ExtendedDaemonSet) { x.Spec.Strategy.RollingUpdate.MaxUnavailable = v })
+		}
+		w.Facts["strategy-edit"]++
 	case "annotation":
 		e := w.pickEDS()
 		key := rapid.SampledFrom(annotationKeys).Draw(w.rt, "annKey")
 		val := rapid.SampledFrom([]string{"true", "true", "false", "-", "yes"}).Draw(w.rt, "annVal")
 		w.AnnotFlips++
+		if w.annSetAt == nil {
+			w.annSetAt = map[string]int{}
+		}
+		w.annSetAt[e.Namespace+"/"+e.Name+"/"+key] = w.idleSeq[e.Namespace+"/"+e.Name]
 		_ = w.C.SetEDSAnnotation(e.Namespace, e.Name, key, val)
 	case "ers-protect":
 		// some other component puts a finalizer on a replica set (foreground deletion, a protection controller): when
@@ -708,7 +760,7 @@ func defaultWeights() map[string]int {
 		"pod-start": 3, "pod-unready": 2, "pod-restart": 2, "pod-waiting": 1, "pod-failed": 1, "pod-unknown": 1,
 		"pod-finalize": 2, "pod-unschedulable": 1, "edit-template": 3, "annotation": 2,
 		"node-add": 1, "node-remove": 1, "node-relabel": 1, "node-taint": 1, "node-untaint": 1,
-		"restart-controllers": 1, "gc": 1, "eds-relabel": 1,
+		"restart-controllers": 1, "gc": 1, "eds-relabel": 1, "edit-strategy": 1,
 	}
 }
 
